@@ -13,7 +13,8 @@ SPEC = {
         ('no-raise(next)', 'next_noprune', 'no-raise'),
         ('K-trans/K-obs(proper probabilities)', 'trans', 'proper-probability'),
         ('K-obs', 'obs', 'proper-probability'),
-        ('no-raise(update)', 'update', 'no-raise|update:returns')],
+        ('no-raise(update)', 'update', 'no-raise|update:returns'),
+        ("match(no exception except the documented one; the trace is stored as given)", 'match', r'^(no-raise|init:fresh|result:is-a-pair)')],
     'bounded': [
         ('totality-and-triples', suites.case_C17, 1500, 25000, RULE + '; ' + 'non-trivial = non-empty match; each case also with (y,x,time) triples and placed on the sphere (lat-lon metric)', '')],
 }
